@@ -62,7 +62,7 @@ Definition chk_C03 (cfg : gw_cfg) (s : gw_state) (ev : gw_event) (os : list obs)
                 (existsb (fun p => match p with Suback _ _ m rc => (m =? mid) && negb (rc =? RC_ACCEPTED) | _ => false end) ps ||
                  (* the refusing SUBACK of a sleeping client waits in the sleep buffer (C11) *)
                  (cstate_eqb (gw_st s) Asleep && (tit =? 0) && negb (has_wildcard name) &&
-                  match snd (new_topic_id cfg s) with None => true | Some _ => false end))
+                  match snd (register_topic cfg s name) with None => true | Some _ => false end))
              then []   (* refused locally: topic IDs exhausted (C04) *)
              else [1]
       | None => if none_of ms is_mq_subscribe then [] else [1]
